@@ -40,7 +40,11 @@ func (r *Reader) readMdat(b *box) (err error) {
 	if logLevelInfo() {
 		logInfo().Object("box", b).Send()
 	}
-	if r.heic.exif.ol.offset == 0 {
+	// The Exif item lies in this mdat only if its extent does (a file may
+	// hold several mdat boxes).
+	pos := uint64(b.offset) + uint64(b.size) - uint64(b.remain)
+	end := uint64(b.offset) + uint64(b.size)
+	if ol := r.heic.exif.ol; ol.offset == 0 || ol.offset < pos || ol.offset > end || ol.length > end-ol.offset {
 		return b.close()
 	}
 	inner, err := r.newExifBox(b)
